@@ -106,7 +106,7 @@ def run(chk):
         chk.violation("C14.resource", rr, "return None, self._allowed_methods", "", "Resource.resolve does not report its methods on a method mismatch")
     sr = repo.func(MOD, "StaticResource.resolve")
     e = [r for r in ast.walk(sr.node) if isinstance(r, ast.Return) and _t(r.value) == "None, set()"]
-    m2 = [r for r in ast.walk(sr.node) if isinstance(r, ast.Return) and _t(r.value) == "None, allowed_methods"]
+    m2 = [r for r in ast.walk(sr.node) if isinstance(r, ast.Return) and (_t(r.value) == "None, allowed_methods" or norm.text(r.value, r).replace("(", "").replace(")", "") in ("None, self._allowed_methods", "None, setself._allowed_methods"))]
     if len(e) == 1 and m2 and PC.has_lit(PC.pc(m2[0]), "request.method in self._allowed_methods", False) is not None:
         chk.ok("C14.resource", m2[0], "StaticResource.resolve: allowed methods on method mismatch, empty set only on prefix mismatch")
     else:
